@@ -21,6 +21,8 @@ import (
 //	strip <file>         -> ok <bytes> | err toolarge | err other
 //	has <file>           -> has true|false
 //	append <src> <cfg>   -> ok <out> | err already | err other
+//	stripto <file> <old dst> / stripin <file>            strip onto an existing destination / in place
+//	appendto <src> <cfg> <old dst> / appendin <src> <cfg>  embed onto an existing destination / in place
 func init() {
 	var dir string
 	path := func(name string) string {
@@ -83,6 +85,37 @@ func init() {
 				b, err := os.ReadFile(q)
 				must(err)
 				return "ok " + hexTok(b)
+			case "stripto", "stripin": // destination already exists (stale longer content) / strip in place
+				p, q := path("bin"), path("out")
+				must(os.WriteFile(p, unhexTok(f[1]), 0o600))
+				if f[0] == "stripin" {
+					q = p
+				} else {
+					must(os.WriteFile(q, unhexTok(f[2]), 0o600))
+				}
+				if err := embed.CopyBinaryWithoutConfig(p, q); err != nil {
+					if errors.Is(err, embed.ErrConfigTooLarge) {
+						return "err toolarge"
+					}
+					return "err other"
+				}
+				b, err := os.ReadFile(q)
+				must(err)
+				return "ok " + hexTok(b)
+			case "appendto", "appendin": // destination already exists / embed in place (src == dst is documented)
+				p, q := path("bin"), path("out")
+				must(os.WriteFile(p, unhexTok(f[1]), 0o600))
+				if f[0] == "appendin" {
+					q = p
+				} else {
+					must(os.WriteFile(q, unhexTok(f[3]), 0o600))
+				}
+				if err := embed.AppendConfig(p, q, unhexTok(f[2])); err != nil {
+					return classify(err)
+				}
+				b, err := os.ReadFile(q)
+				must(err)
+				return "ok " + hexTok(b)
 			case "has":
 				p := path("bin")
 				must(os.WriteFile(p, unhexTok(f[1]), 0o600))
@@ -118,12 +151,29 @@ func init() {
 					if r.chance(10) {
 						cfg = nil
 					}
+					if r.chance(12) { // large configurations: buffer/phase boundaries of any chunked reader
+						cfg = r.bytes(r.pick(511, 512, 513, 1000, 4095, 4096, 4097, 4100, 5000, 8191, 8192, 8193, 10000, 16384, 16385, 32769, 65535, 65536, 65537))
+					}
 					if r.chance(15) { // source that already ends in the magic
 						body = append(body, magic...)
 					}
-					fmt.Fprintf(w, "append %s %s\n", hexTok(body), hexTok(cfg))
+					switch r.intn(6) {
+					case 0:
+						fmt.Fprintf(w, "appendto %s %s %s\n", hexTok(body), hexTok(cfg), hexTok(r.bytes(r.pick(0, 1, len(body)+len(cfg)+15, len(body)+len(cfg)+17, len(body)+len(cfg)+300))))
+					case 1:
+						fmt.Fprintf(w, "appendin %s %s\n", hexTok(body), hexTok(cfg))
+					default:
+						fmt.Fprintf(w, "append %s %s\n", hexTok(body), hexTok(cfg))
+					}
 					file := append(append(append([]byte{}, body...), embed.XOR(cfg)...), trailer(uint64(len(cfg)), magic)...)
-					fmt.Fprintf(w, "%s %s\n", r.pickS("read", "strip", "size", "has"), hexTok(file))
+					switch r.intn(6) {
+					case 0:
+						fmt.Fprintf(w, "stripto %s %s\n", hexTok(file), hexTok(r.bytes(r.pick(0, 1, len(body)+1, len(file), len(file)+40))))
+					case 1:
+						fmt.Fprintf(w, "stripin %s\n", hexTok(file))
+					default:
+						fmt.Fprintf(w, "%s %s\n", r.pickS("read", "strip", "size", "has"), hexTok(file))
+					}
 				default: // arbitrary file with a chosen trailer length value
 					size := uint64(len(body) + 16)
 					lens := []uint64{0, 1, 2, size - 17, size - 16, size - 15, size, size + 1, uint64(len(body)), uint64(len(body)) + 1,
